@@ -102,3 +102,23 @@ Theorem c06_chan_count_is_queued :
     ccount s = Z.of_nat (cavail s).
 Proof. exact chan_gen_count_is_queued. Qed.
 Print Assumptions c06_chan_count_is_queued.
+
+(* ---- nested simulations on one thread: the single-threaded executor's run (Model/StRun.v) ----
+   For the body of ExecutorInner::run GENERATED from the current executor/st_executor.rs, whatever the tasks do
+   (any change d of the thread's count, completion or a panic of any model) and whatever the enclosing
+   executor had in the two thread-locals: the run leaves THREAD_MSG_COUNT and CURRENT_MODEL_ID as it found
+   them on every path, keeps its own count, and reports a panic before unprocessed messages.  F6 and F7 are the
+   refutation of this specification for the body of the pinned tree. *)
+Require Import NX.Model.StRun NX.gen.StRunProg NX.Proofs.StRunProofs NX.Proofs.StRunGen.
+
+Theorem c06_strun_source_is_proved_program : strun_gen = strun_fixed.
+Proof. exact strun_gen_is_proved. Qed.
+Print Assumptions c06_strun_source_is_proved_program.
+
+Theorem c06_strun_nested_run_restores_thread_locals : sr_spec strun_gen.
+Proof. exact strun_gen_spec. Qed.
+Print Assumptions c06_strun_nested_run_restores_thread_locals.
+
+Theorem c06_strun_refuted_on_pinned_tree : ~ sr_spec strun_pinned.
+Proof. exact strun_pinned_not_spec. Qed.
+Print Assumptions c06_strun_refuted_on_pinned_tree.
